@@ -19,7 +19,8 @@
 (*  "load_inserts_without_recheck"  _load_page / read-ahead make room, then  *)
 (*      wait the disk read latency, then insert without looking at the size  *)
 (*      again: two overlapping misses both insert and the cache exceeds its  *)
-(*      capacity.  Design without it: room is made again at insertion time.  *)
+(*      capacity.  Design without it: _ensure_space runs again after the     *)
+(*      read latency, immediately before the insertion.                      *)
 (*  "load_overwrites_dirty_page"  the insert after the read latency replaces *)
 (*      an entry that a concurrent write_page created meanwhile by a clean   *)
 (*      page object: the dirty flag is dropped without a writeback.  Design  *)
@@ -43,20 +44,12 @@ PNoOp == [kind |-> "none", pid |-> 0, st |-> "new", cont |-> "", victim |-> 0, i
 PNewOp(kind, pid) == [PNoOp EXCEPT !.kind = kind, !.pid = pid]
 POut(s, op, done, ret, lat) == [s |-> s, op |-> op, done |-> done, ret |-> ret, lat |-> lat]
 
-\* room made synchronously (design without P1): evict LRU pages, writing dirty ones back on the spot
-RECURSIVE SyncRoom(_, _)
-SyncRoom(g, s) == IF Len(s.pg) < g.cap \/ s.pg = <<>> THEN s
-                  ELSE LET v == Head(s.pg)
-                       IN SyncRoom(g, Drop(IF v \in s.dirty THEN [s EXCEPT !.wb = @ + 1] ELSE s, v))
-
-\* insertion of a clean page after a disk read
-LoadInsert(g, s, p) ==
-    IF Has(s.pg, p)
-    THEN IF P2 \in g.dev
-         THEN [s EXCEPT !.dirty = @ \ {p}, !.lost = IF p \in s.dirty THEN @ + 1 ELSE @]
-         ELSE s
-    ELSE LET s1 == IF P1 \in g.dev THEN s ELSE SyncRoom(g, s)
-         IN [s1 EXCEPT !.pg = Append(@, p)]
+\* the page a load-insert stage is about to insert, and the stage that follows it
+Tgt(op) == IF op.st \in {"ins", "ins2"} THEN op.pid ELSE op.pid + op.i
+After(op) == IF op.st \in {"ins", "ins2"} THEN [op EXCEPT !.st = "ra", !.i = 1] ELSE [op EXCEPT !.st = "ra", !.i = @ + 1]
+\* an entry for the page exists already (a concurrent operation cached it during the read latency)
+KeepOrClobber(g, s, p) ==
+    IF P2 \in g.dev THEN [s EXCEPT !.dirty = @ \ {p}, !.lost = IF p \in s.dirty THEN @ + 1 ELSE @] ELSE s
 
 RECURSIVE Adv(_, _, _)
 Adv(g, s, op) ==
@@ -78,13 +71,19 @@ Adv(g, s, op) ==
             IN IF Has(s.pg, op.victim) THEN Adv(g, Drop(s1, op.victim), [op EXCEPT !.st = "ens"])
                ELSE POut(s1, op, TRUE, -1, "-")              \* KeyError: someone else deleted the victim
       [] op.st = "rd" -> POut(s, [op EXCEPT !.st = "ins"], FALSE, 0, "RL")
-      [] op.st = "ins" -> Adv(g, LoadInsert(g, s, op.pid), [op EXCEPT !.st = "ra", !.i = 1])
+      [] op.st \in {"ins", "rains"} ->
+            LET p == Tgt(op) IN
+            IF Has(s.pg, p) THEN Adv(g, KeepOrClobber(g, s, p), After(op))
+            ELSE IF P1 \in g.dev THEN Adv(g, [s EXCEPT !.pg = Append(@, p)], After(op))
+            ELSE Adv(g, s, [op EXCEPT !.st = "ens", !.cont = IF op.st = "ins" THEN "ins2" ELSE "rains2"])
+      [] op.st \in {"ins2", "rains2"} ->          \* design without P1: room was made again just now
+            LET p == Tgt(op) IN
+            Adv(g, IF Has(s.pg, p) THEN KeepOrClobber(g, s, p) ELSE [s EXCEPT !.pg = Append(@, p)], After(op))
       [] op.st = "ra" ->
             IF op.i > g.ra THEN POut(s, op, TRUE, 0, "-")
             ELSE IF ~Has(s.pg, op.pid + op.i) /\ Len(s.pg) < g.cap
                  THEN POut(s, [op EXCEPT !.st = "rains"], FALSE, 0, "RL")
                  ELSE Adv(g, s, [op EXCEPT !.i = @ + 1])
-      [] op.st = "rains" -> Adv(g, LoadInsert(g, s, op.pid + op.i), [op EXCEPT !.st = "ra", !.i = @ + 1])
       [] op.st = "wins" ->
             POut(IF Has(s.pg, op.pid) THEN [s EXCEPT !.dirty = @ \cup {op.pid}]
                  ELSE [s EXCEPT !.pg = Append(@, op.pid), !.dirty = @ \cup {op.pid}], op, TRUE, 0, "-")
